@@ -248,11 +248,26 @@ def replay(key: str, cex: dict, variant=None):
         return {"confirmed": False, "detail": "candidate does not satisfy the requires (spurious)"}
     m = s.model()
     # fix remaining symbolic pre-state (ghost) to the witness
-    from .run import model_value
+    import signal
+
+    class _Hang(BaseException):
+        pass
+
+    def _on_alarm(signum, frame):
+        raise _Hang()
+
+    old_handler = signal.signal(signal.SIGALRM, _on_alarm)
+    signal.alarm(5)
     try:
         res, post_py, exc = native_call(sp, cls, fn.name, cex, pnames)
+    except _Hang:
+        return {"confirmed": True, "detail": "real code does not return within 5 s on this input (state satisfies the requires)",
+                "observed": "no return"}
     except Exception as e:  # construction failed
         return {"confirmed": False, "detail": f"could not build native input: {e!r}"}
+    finally:
+        signal.alarm(0)
+        signal.signal(signal.SIGALRM, old_handler)
     if exc is not None:
         if sp.raises_ok:
             return {"confirmed": False, "detail": f"raises {exc!r} (allowed)"}
